@@ -155,14 +155,14 @@ def run(ctx, rep):
 def filter_semantics_rule(P, rep, rid='R-C18-6'):
     """the decision function of the include/exclude rules (filter_alloc_file -> filter_element -> filter_recurse -> filter_apply) is
     string/integer-only code around fnmatch(): it is interpreted from the IR with fnmatch replaced by a model of POSIX fnmatch
-    (`*`, `?`, FNM_PATHNAME) and compared, over an exhaustive small domain of rule lists and paths, with the documented rules:
+    (`*`, `?`; the flag operand of each call decides FNM_PATHNAME, FNM_PERIOD, FNM_LEADING_DIR, FNM_CASEFOLD) and compared, over an exhaustive small domain of rule lists and paths, with the documented rules:
     the first rule that matches decides; a pattern without slash matches file names at any depth, `name/` directory names at any
     depth, a leading slash anchors the pattern at the disk root (wildcards do not cross `/`); whatever lies in an excluded or
     included directory follows it; when no rule matches the verdict is the opposite of the last rule (directories being descended
     into are kept)."""
     import itertools, re as _re2
     from .. import region as RG
-    rep.rule(rid, 'include/exclude decision function equals the documented rules over an exhaustive small domain of rule lists (1-2 rules, 9 pattern shapes, both directions) and paths (files and directories, 3 levels)', 3000)
+    rep.rule(rid, 'include/exclude decision function equals the documented rules over an exhaustive small domain of rule lists (1-2 rules, 9 pattern shapes, both directions) and paths (files and directories, 3 levels, names with a leading period and of the other case; every fnmatch flag of the call sites modelled)', 3000)
     fa = P.fn('filter_alloc_file'); fe = P.fn(filter_decision_fn(P))
     rep.analysed(fa, fe, P.fn('filter_recurse'), P.fn('filter_apply'))
     lay = P.distructs.get('snapraid_filter'); nl = P.distructs.get('tommy_node_struct')
@@ -170,16 +170,23 @@ def filter_semantics_rule(P, rep, rid='R-C18-6'):
         raise AnalysisBroken('layout of snapraid_filter / tommy_node_struct not found')
     fo = {m['name']: m['off'] for m in lay['members']}; no = {m['name']: m['off'] for m in nl['members']}
 
-    def fn_translate(pat, pathname):
+    # glibc <fnmatch.h>: FNM_PATHNAME 1, FNM_NOESCAPE 2, FNM_PERIOD 4, FNM_LEADING_DIR 8, FNM_CASEFOLD 16 (read from the call's flag
+    # operand, so a flag added to or dropped from either call changes the model's answer, not only FNM_PATHNAME)
+    def fn_translate(pat, flags):
+        flags = int(flags)
+        pathname = bool(flags & 1); period = bool(flags & 4)
         out = ''
-        for ch in pat:
+        for k, ch in enumerate(pat):
+            lead = period and (k == 0 or (pathname and pat[k - 1] == '/'))
             if ch == '*':
-                out += '[^/]*' if pathname else '.*'
+                out += ('(?![.])' if lead else '') + ('[^/]*' if pathname else '.*')
             elif ch == '?':
-                out += '[^/]' if pathname else '.'
+                out += ('(?![.])' if lead else '') + ('[^/]' if pathname else '.')
             else:
                 out += _re2.escape(ch)
-        return _re2.compile('^' + out + '$', _re2.S)
+        if flags & 8:
+            out += '(?:/.*)?'
+        return _re2.compile('^' + out + '$', _re2.S | (_re2.I if flags & 16 else 0))
 
     class M:
         pass
@@ -216,7 +223,7 @@ def filter_semantics_rule(P, rep, rid='R-C18-6'):
                 return (0,)
             if c == 'fnmatch':
                 pat, s_, fl = cstr(m.R, args[0]), cstr(m.R, args[1]), args[2]
-                return (0 if fn_translate(pat, bool(fl & 1)).match(s_) else 1,)
+                return (0 if fn_translate(pat, fl).match(s_) else 1,)
             return None
         m.R = RG.Region(P, extern=ext)
         m.cstr = cstr; m.put = put
@@ -232,7 +239,7 @@ def filter_semantics_rule(P, rep, rid='R-C18-6'):
         for full, name, d in items:
             if d != is_dirpat:
                 continue
-            if (fn_translate(core[1:], True).match(full) if rooted else fn_translate(core, False).match(name)):
+            if (fn_translate(core[1:], 1).match(full) if rooted else fn_translate(core, 0).match(name)):
                 return True
         return False
 
@@ -249,7 +256,9 @@ def filter_semantics_rule(P, rep, rid='R-C18-6'):
     pats = ['*.txt', 'a', 'd/', '/d/', '/d/a', '/a', '/d/*', '/*/a', 'e*/']
     rules1 = [(dr, p) for dr in (1, -1) for p in pats]
     lists = [[r] for r in rules1] + [[r1, r2] for r1 in rules1 for r2 in rules1 if r1 != r2]
-    queries = [(p, 0, 0) for p in ('a', 'b.txt', 'd/a', 'd/b.txt', 'e/d/a', 'd/e/a', 'ex/a', 'd')] + \
+    # names with a leading period and of the other case: a wildcard matches a leading period (hidden files are a separate
+    # option, nohidden), and on this platform matching is case sensitive
+    queries = [(p, 0, 0) for p in ('a', 'b.txt', 'd/a', 'd/b.txt', 'e/d/a', 'd/e/a', 'ex/a', 'd', '.b.txt', 'd/.b', 'A', 'D/a')] + \
               [(p, 1, di) for p in ('d', 'e/d', 'ex') for di in (0, 1)]
     bad = None
     nrun = 0
